@@ -35,3 +35,37 @@ pub async fn json_flush_synchronous(wb: &mut Worterbuch, config: &Config) -> Per
 pub async fn json_load(config: &Config) -> PersistenceResult<Worterbuch> {
     crate::persistence::verif_json_load(config).await
 }
+
+pub fn unlock_persistence() {
+    crate::persistence::unlock_persistence()
+}
+
+thread_local! {
+    static CRASH_AT: std::cell::Cell<i64> = const { std::cell::Cell::new(-1) };
+    static CRASH_COUNTER: std::cell::Cell<i64> = const { std::cell::Cell::new(0) };
+}
+
+/// Arms the simulated process crash: the n-th crash point passed on this thread from now on fails
+/// (n < 0: never). Returns nothing; `crash_points_passed` tells how many were passed since.
+pub fn arm_crash(n: i64) {
+    CRASH_AT.with(|c| c.set(n));
+    CRASH_COUNTER.with(|c| c.set(0));
+}
+
+pub fn crash_points_passed() -> i64 {
+    CRASH_COUNTER.with(|c| c.get())
+}
+
+/// A point between two file system operations of the persistence code at which the process may die.
+pub(crate) fn crash_point(_name: &str) -> std::io::Result<()> {
+    let n = CRASH_COUNTER.with(|c| {
+        let n = c.get();
+        c.set(n + 1);
+        n
+    });
+    if n == CRASH_AT.with(|c| c.get()) {
+        Err(std::io::Error::other("simulated crash"))
+    } else {
+        Ok(())
+    }
+}
